@@ -166,3 +166,4 @@ P("C19",
   design_ref="5 C19", trusted_base=[KERNEL, HARNESS, "testing.AllocsPerRun", "verif-tagged VerifCtxSlots hook"],
   assumptions=["inspectors of the data do not allocate (slices and structs of koykov/inspector's testobj; maps excluded)"])
 PROPS["C05"]["srcfacts"] = True
+PROPS["C15"]["srcfacts"] = True
